@@ -1,9 +1,11 @@
 CONSTANTS Procs <- EnvProcs SameText <- EnvSameText InitModels <- EnvModels InitMeta <- EnvMeta InitRows <- EnvRows
   TouchOnHit <- EnvTouch SharedInited <- EnvShared DeferredSchemaTxn <- EnvDeferred
+  LockedCountsAsCorrupt <- EnvLockedCorrupt AllowTimeout <- EnvTimeout
 INIT Init
 NEXT Next
 VIEW View
 ACTION_CONSTRAINT Log
 INVARIANT NoDbError
+INVARIANT NoRemoveWhileInUse
 INVARIANT AtMostOneWriter
 INVARIANT DbIntactAtEnd
